@@ -177,17 +177,17 @@ std::vector<Elem> xml_elems(const std::string& s) {
 // small base meshes, and INT_MAX (arithmetic on it overflows)
 // ... two integers that wrap to a small value when multiplied by 3 in 32 bits (1431655765 * 3 = 2^32 - 1, 1431655766 * 3 = 2^32 + 2), and white space
 // that reaches the reader as a text node (character reference, CDATA section) instead of being dropped by the XML parser
-const char* const VALUE_NAMES[] = {"-1", "0", "4294967296", "20digit", "1e999", "nan", "inf", "abc", "99", "2147483647", "1431655765", "1431655766", "charref_space", "cdata_space", "1e5digits"};
-const int N_VALUES = 15;
+const char* const VALUE_NAMES[] = {"-1", "0", "4294967296", "20digit", "1e999", "nan", "inf", "abc", "99", "2147483647", "1431655765", "1431655766", "charref_space", "cdata_space", "followed_by_3e5_blanks", "1e5digits"};
+const int N_VALUES = 16;
 std::string value_text(int k) {
     switch (k) { case 0: return "-1"; case 1: return "0"; case 2: return "4294967296"; case 3: return "18446744073709551616"; case 4: return "1e999";
-                 case 5: return "nan"; case 6: return "inf"; case 7: return "abc"; case 8: return "99"; case 9: return "2147483647"; case 10: return "1431655765"; case 11: return "1431655766"; case 12: return "&#32;"; case 13: return "<![CDATA[ ]]>"; default: return std::string(100000, '9'); }
+                 case 5: return "nan"; case 6: return "inf"; case 7: return "abc"; case 8: return "99"; case 9: return "2147483647"; case 10: return "1431655765"; case 11: return "1431655766"; case 12: return "&#32;"; case 13: return "<![CDATA[ ]]>"; case 14: return "\x01PAD"; default: return std::string(100000, '9'); }
 }
 // extra replacement texts used by the random multi-mutations only (boundary values of int / short / the point count ...)
 const std::vector<std::string> EXTRA_VALUES = {"2147483647", "2147483648", "715827883", "1000000000", "65536", "32768", "32767", "-0", "1e-999", "0x10", "+5", "3.5",
     "1e5", "1e308", " ", "\t", "1", "2", "3", "4", "5", "7", "8", "11", "12", "13", "15", "16", "23", "24", "42", "49", "50", "-", ".", "e", "1e", "..", "INF", "NaN", "<", ">", "&", "</", "<a>", "\"", "\r"};
 
-enum { TOK_DELETE = 0, TOK_DUP = 1, TOK_EMPTY = 2, TOK_VALUE0 = 3 };      // token / element operators: 3 + N_VALUES = 18
+enum { TOK_DELETE = 0, TOK_DUP = 1, TOK_EMPTY = 2, TOK_VALUE0 = 3 };      // token / element operators: 3 + N_VALUES = 19
 enum { BLK_REMOVE = 0, BLK_DUP = 1, BLK_SWAP = 2 };
 std::string tokop_name(int op) { return op == TOK_DELETE ? "delete" : op == TOK_DUP ? "duplicate" : op == TOK_EMPTY ? "empty" : std::string("val:") + VALUE_NAMES[op - TOK_VALUE0]; }
 std::string blkop_name(int op) { return op == BLK_REMOVE ? "remove" : op == BLK_DUP ? "duplicate" : "swap"; }
@@ -197,6 +197,7 @@ std::string vtk_token_op(const std::string& s, Span t, int op, const std::string
     if (op == TOK_DELETE) { size_t e = t.e < s.size() ? t.e + 1 : t.e; r.erase(t.b, e - t.b); }
     else if (op == TOK_DUP) r.insert(t.e, " " + s.substr(t.b, t.e - t.b));
     else if (op == TOK_EMPTY) r.erase(t.b, t.e - t.b);
+    else if (val == "\x01PAD") r.insert(t.e, std::string(300000, ' '));   // the token stays, 3e5 blanks follow it (a header field separated by a very long run of white space)
     else r.replace(t.b, t.e - t.b, val);
     return r;
 }
@@ -205,6 +206,7 @@ std::string xml_elem_op(const std::string& s, const Elem& x, int op, const std::
     if (op == TOK_DELETE) r.erase(x.ob, x.ce - x.ob);
     else if (op == TOK_DUP) r.insert(x.ce, "\n" + s.substr(x.ob, x.ce - x.ob));
     else if (op == TOK_EMPTY) r.erase(x.oe, x.cb - x.oe);
+    else if (val == "\x01PAD") r.insert(x.cb, std::string(300000, ' '));
     else r.replace(x.oe, x.cb - x.oe, val);
     return r;
 }
@@ -289,6 +291,7 @@ void build_catalogue(World& w) {
 bool op_in(int op, std::initializer_list<const char*> names) { std::string n = tokop_name(op); for (auto x : names) if (n == x) return true; return false; }
 std::string must_reject_class(const World& w, const Fault& f) {
     const std::string& s = f.file == 0 ? w.bases[f.base].vtk : w.xml[f.base];
+    if (f.cls == 0 && f.op >= TOK_VALUE0 && op_in(f.op, {"val:followed_by_3e5_blanks"})) return "";   // the value itself is unchanged: the file stays valid
     if (f.file == 0 && f.cls == 0) {
         const std::string role = vtk_roles(s)[f.target];
         const bool count_changing = op_in(f.op, {"delete", "duplicate", "empty", "val:abc", "val:nan", "val:inf", "val:1e999"});   // 1e999 reads as the two integers 1 and 999
